@@ -62,6 +62,8 @@ def value_for(rng, e: dict, d: specgen.Doc):
         return rng.choice([[1], [0, -7], [3, 2, 1]])
     if k == "enum_inline":
         return rng.choice(["asc", "desc", "by-name"])
+    if k == "array_enum_inline":
+        return [rng.choice(["new", "in-progress", "done"]) for _ in range(rng.randint(1, 3))]
     if k == "array_enum_ref":
         vals = d.sexp[e["target"]]["values"]
         return [rng.choice(vals) for _ in range(rng.randint(1, 3))]
@@ -298,7 +300,8 @@ def run_batch(ctx: Ctx, items: list[dict]) -> None:
 def mk_doc(ctx: Ctx, trig: set[str]) -> specgen.Doc:
     return specgen.generate(ctx.rng, allow=trig, prof={"ops": (2, 5), "p_param": 0.9, "p_body": 0.7, "schemas": (2, 5),
                                                        "p_multi_media": 0.6 if "multi_request_media" in trig else 0.0,
-                                                       "styles": ["camel", "snake", "kebab", "keywordish"], "p_self_ref": 0.0, "p_union": 0.0})
+                                                       "styles": ["camel", "snake", "kebab", "keywordish"], "p_self_ref": 0.0, "p_union": 0.0,
+                                                       "p_component_refs": 0.3})
 
 
 def run_shard(ctx: Ctx) -> None:
